@@ -320,6 +320,40 @@ func ruleAllModelsValidated(c *core.Ctx) {
 		}
 		c.Check(uncond, rule, "validatePackage/versions/dsl.Validate", l.Pos(), "each version is validated unconditionally in the loop body", "dsl.Validate is not called as a top-level statement of the version loop (a conditional or missing validation lets an invalid previous version through)")
 	}
+	// no verdict "valid" before the previous versions were looked at: every return without an error lies behind the
+	// loop over Versions on every path (a shortcut in front of it makes validity depend on whatever the shortcut tests)
+	if len(loops) == 1 {
+		fc := core.NewCFG(vpd.Body, info)
+		lb := fc.BlockOf(loops[0].Stmt)
+		okAll := lb != nil
+		var early *ast.ReturnStmt
+		ast.Inspect(vpd.Body, func(n ast.Node) bool {
+			if _, isLit := n.(*ast.FuncLit); isLit {
+				return false
+			}
+			r, ok := n.(*ast.ReturnStmt)
+			if !ok || len(r.Results) == 0 {
+				return true
+			}
+			if tv, ok := info.Types[r.Results[len(r.Results)-1]]; !ok || !tv.IsNil() {
+				return true
+			}
+			rb := fc.BlockOf(r)
+			if lb == nil || rb == nil || !fc.BlockDominates(lb, rb) {
+				okAll = false
+				if early == nil {
+					early = r
+				}
+			}
+			return true
+		})
+		pos := vpd.Pos()
+		if early != nil {
+			pos = early.Pos()
+		}
+		c.Check(okAll, rule, "validatePackage/success only after the versions", pos, "every error-free return is dominated by the loop over packageInfo.Versions",
+			"validatePackage can return without an error before the previous versions were parsed and validated: an invalid or incompatible previous version no longer stops generation")
+	}
 	c.Check(len(callsIn(info, vpd.Body, evo)) >= 1, rule, "validatePackage/dsl.ValidateEvolution", vpd.Pos(), "evolution check is invoked", "ValidateEvolution is never called")
 
 	// parsePackageNamespaces: recursion over p.Imports with imp.Package, appended to References
